@@ -3,6 +3,7 @@
   families of /repo/object.go (regenerated on every run by extract/c04.go into GojaModel.Generated.C04, Str/Idx/Sym
   suffixes erased, key parameter renamed KEY, error messages dropped) against the hand-written expectation of the
   LEGITIMATE differences between the copies:
+    * `_defineOwnProperty`                     — the exact statement list the Lean transcription was written from;
     * `Object.setStr/setIdx/setSym`            — identical text;
     * `_setForeignStr/_setForeignIdx`          — identical text; `setForeignSym` = symValues lookup prelude ++ the same text;
     * `setOwnSym`, `defineOwnPropertySym`, `deleteSym` — symValues storage instead of values/propNames (Expected below);
@@ -135,6 +136,105 @@ def deleteOwnSym : List String := [
   "return true"
 ]
 
+/-- `_defineOwnProperty` (object.go:650) statement by statement — the text that ModelDefine.lean `rejects`/`applyDesc`
+transcribe.  A change of any condition, assignment or goto (e.g. a revert of d72dab1) breaks `defineOwnProperty_expected`. -/
+def defineOwnProperty : List String := [
+  "getterObj, _ := descr.Getter.(*Object)",
+  "setterObj, _ := descr.Setter.(*Object)",
+  "var existing *valueProperty",
+  "if existingValue == nil",
+  "if !o.extensible",
+  "typeErrorResult(throw)",
+  "return nil, false",
+  "end",
+  "existing = &valueProperty{}",
+  "else",
+  "existing, ok = existingValue.(*valueProperty)",
+  "if !ok",
+  "existing = &valueProperty{ writable: true, enumerable: true, configurable: true, value: existingValue, }",
+  "end",
+  "if !existing.configurable",
+  "if descr.Configurable == FLAG_TRUE",
+  "goto Reject",
+  "end",
+  "if descr.Enumerable != FLAG_NOT_SET && descr.Enumerable.Bool() != existing.enumerable",
+  "goto Reject",
+  "end",
+  "end",
+  "if existing.accessor && descr.IsData() || !existing.accessor && descr.IsAccessor()",
+  "if !existing.configurable",
+  "goto Reject",
+  "end",
+  "else",
+  "if !existing.accessor",
+  "if !existing.configurable",
+  "if !existing.writable",
+  "if descr.Writable == FLAG_TRUE",
+  "goto Reject",
+  "end",
+  "if descr.Value != nil && !descr.Value.SameAs(existing.value)",
+  "goto Reject",
+  "end",
+  "end",
+  "end",
+  "else",
+  "if !existing.configurable",
+  "if descr.Getter != nil && existing.getterFunc != getterObj || descr.Setter != nil && existing.setterFunc != setterObj",
+  "goto Reject",
+  "end",
+  "end",
+  "end",
+  "end",
+  "end",
+  "if descr.Writable == FLAG_TRUE && descr.Enumerable == FLAG_TRUE && descr.Configurable == FLAG_TRUE && descr.Value != nil",
+  "return descr.Value, true",
+  "end",
+  "if descr.Writable != FLAG_NOT_SET",
+  "existing.writable = descr.Writable.Bool()",
+  "end",
+  "if descr.Enumerable != FLAG_NOT_SET",
+  "existing.enumerable = descr.Enumerable.Bool()",
+  "end",
+  "if descr.Configurable != FLAG_NOT_SET",
+  "existing.configurable = descr.Configurable.Bool()",
+  "end",
+  "if descr.Value != nil",
+  "existing.value = descr.Value",
+  "existing.getterFunc = nil",
+  "existing.setterFunc = nil",
+  "end",
+  "if descr.Value != nil || descr.Writable != FLAG_NOT_SET",
+  "if existing.accessor",
+  "existing.getterFunc = nil",
+  "existing.setterFunc = nil",
+  "if descr.Writable == FLAG_NOT_SET",
+  "existing.writable = false",
+  "end",
+  "end",
+  "existing.accessor = false",
+  "end",
+  "if (descr.Getter != nil || descr.Setter != nil) && !existing.accessor",
+  "existing.writable = false",
+  "end",
+  "if descr.Getter != nil",
+  "existing.getterFunc = propGetter(o.val, descr.Getter, o.val.runtime)",
+  "existing.value = nil",
+  "existing.accessor = true",
+  "end",
+  "if descr.Setter != nil",
+  "existing.setterFunc = propSetter(o.val, descr.Setter, o.val.runtime)",
+  "existing.value = nil",
+  "existing.accessor = true",
+  "end",
+  "if !existing.accessor && existing.value == nil",
+  "existing.value = _undefined",
+  "end",
+  "return existing, true",
+  "label Reject",
+  "typeErrorResult(throw)",
+  "return nil, false"
+]
+
 def symLookupPrelude : List String := [
   "var prop Value",
   "if o.symValues != nil",
@@ -143,6 +243,7 @@ def symLookupPrelude : List String := [
 ]
 end Expected
 
+theorem defineOwnProperty_expected : defineOwnProperty = Expected.defineOwnProperty := by rfl
 theorem objectSet_Idx_eq_Str : objectSetIdx = objectSetStr := by rfl
 theorem objectSet_Sym_eq_Str : objectSetSym = objectSetStr := by rfl
 theorem setForeignInner_Idx_eq_Str : setForeignInnerIdx = setForeignInnerStr := by rfl
